@@ -19,6 +19,39 @@ def run_gen(name, args, stdin=None, timeout=120):
         return -999, b"", b""
 
 
+_io_counter = [0]
+
+
+def run_gen_files(name, args, stdin, out_flag=None):
+    """the same call through the file channel: INPUT and OUTPUT are files (OUTPUT with -o for random_graph_gen), and the output
+    file ALREADY EXISTS and is longer than what the generator will write (a stale result of an earlier run)"""
+    import tempfile
+    _io_counter[0] += 1
+    base = os.path.join(WORK, "gen_io")
+    os.makedirs(base, exist_ok=True)
+    dd = tempfile.mkdtemp(dir=base)
+    outp = os.path.join(dd, "out.txt")
+    with open(outp, "wb") as fh:
+        fh.write(b"stale & " * 20000 + b"stale\n")
+    if out_flag:
+        argv = list(args) + [out_flag, outp]
+    else:
+        inp = os.path.join(dd, "in.txt")
+        with open(inp, "wb") as fh:
+            fh.write(stdin or b"")
+        argv = [inp, outp] + list(args)
+    rc, so, se = run_gen(name, argv)
+    try:
+        content = open(outp, "rb").read()
+    except OSError:
+        content = b""
+    if rc == 0 and so.strip():
+        content = so + content          # nothing should have gone to stdout; if it did, it is part of what is judged
+    import shutil
+    shutil.rmtree(dd, ignore_errors=True)
+    return rc, (content if rc == 0 else so), se
+
+
 def parse_asts(files):
     """real parser's trees for generator outputs (harness parse-ast)"""
     summary, recs = run_harness(["parse-ast"] + files)
@@ -282,7 +315,10 @@ def c17(run):
     files = []
     for i, (r, txt, label) in enumerate(puzzles):
         f = os.path.join(d, "s%d.txt" % i)
-        rc, out, err = run_gen("sudoku_gen", ["-r", str(r)], stdin=txt.encode())
+        if i % 3 == 1:
+            rc, out, err = run_gen_files("sudoku_gen", ["-r", str(r)], txt.encode())
+        else:
+            rc, out, err = run_gen("sudoku_gen", ["-r", str(r)], stdin=txt.encode())
         open(f, "wb").write(out)
         files.append(f)
         if rc != 0:
@@ -449,7 +485,11 @@ def c16(run):
         g, und, al, f = it
         csv = "".join("%s,%s\n" % e for e in g)
         args = (["-u"] if und else []) + (["-a"] if al else [])
-        rc, out, err = run_gen("max_clique_gen", args, stdin=csv.encode())
+        import zlib
+        if zlib.crc32(f.encode()) % 3 == 0:
+            rc, out, err = run_gen_files("max_clique_gen", args, csv.encode())
+        else:
+            rc, out, err = run_gen("max_clique_gen", args, stdin=csv.encode())
         open(f, "wb").write(out)
         return rc
     with ThreadPoolExecutor(max_workers=NCPU) as ex:
@@ -572,7 +612,10 @@ def c18(run):
         out = []
         for _ in range(R):
             args = [str(V)] + ([str(E)] if not comp or rnd.random() < 0.5 else []) + (["-u"] if und else []) + (["--complete"] if comp else []) + (["--dot"] if dot else [])
-            rc, so, se = run_gen("random_graph_gen", args)
+            if rnd.random() < 0.25:
+                rc, so, se = run_gen_files("random_graph_gen", args, None, out_flag="-o")
+            else:
+                rc, so, se = run_gen("random_graph_gen", args)
             out.append((args, rc, so))
         return req, out
 
